@@ -176,7 +176,8 @@ def oracle_tile(C, gs, sp: Spec, k: Tuple[int, int], exact: bool):
         C.oracle(False, "tile-geobox-raises", case, repr(e))
         return
     big = max(sp.scale(), *(abs(v) for v in bb))
-    s = 0 if exact else Fraction(1, 10**9) * big
+    # float error of idx*sz*dir + origin and of tile_size = n*|res| is a few ulps of the magnitudes involved
+    s = 0 if exact else Fraction(1, 2**46) * big
     A = gb.affine
     ok = (tuple(gb.shape) == (sp.ny, sp.nx) and A.a == sp.rx and A.e == sp.ry and A.b == 0 and A.d == 0
           and gb.resolution.x == sp.rx and gb.resolution.y == sp.ry)
@@ -260,15 +261,19 @@ def oracle_query(C, gs, sp: Spec, q: Tuple[float, float, float, float], exact: b
     C.oracle(True, "bbox-query", case, "", sig="query|" + ("thin" if thin else "box") + "|" + sp.sig())
 
 
-def oracle_polygon(C, gs, sp: Spec, pts: List[Tuple[float, float]], exact: bool, O):
-    """polygon query vs shapely as the reference"""
+def oracle_polygon(C, gs, sp: Spec, pts: List[Tuple[float, float]], exact: bool, O, got=None, history=None):
+    """polygon query vs shapely as the reference; `got` = result of the query when it was made as a step of a
+    history (shared geobox_cache), the reference never uses a cache"""
     import shapely
     import shapely.geometry as sg
 
     case = {"op": "poly", "grid": sp.tok(), "pts": [[fs(x), fs(y)] for x, y in pts]}
+    if history is not None:
+        case["history"] = history
     try:
         poly = O.geom.polygon(list(pts) + [pts[0]], CRS)
-        got = [tuple(map(int, k)) for k, _ in gs.tiles_from_geopolygon(poly)]
+        if got is None:
+            got = [tuple(map(int, k)) for k, _ in gs.tiles_from_geopolygon(poly)]
         cand = [(tuple(map(int, k)), gb) for k, gb in gs.tiles(poly.boundingbox)]
     except Exception as e:  # pylint: disable=broad-except
         C.oracle(False, "polygon-query-raises", case, repr(e))
@@ -310,7 +315,9 @@ def oracle_roundtrip(C, gs, sp: Spec, j: Tuple[int, int], ks: List[Tuple[int, in
         for k in ks:
             a, b = fbb(g2[k].boundingbox), fbb(gs[k].boundingbox)
             big = max(sp.scale(), *(abs(v) for v in a + b))
-            s = 0 if exact else Fraction(1, 10**9) * big
+            # the sample edges carry 1 ulp of |j|*sz; the rebuilt size inherits it and it is multiplied by |k-j|
+            amp = max((abs(j[0]) + 2) * (abs(k[0] - j[0]) + 2) * sp.szx, (abs(j[1]) + 2) * (abs(k[1] - j[1]) + 2) * sp.szy)
+            s = 0 if exact else Fraction(1, 2**46) * (big + abs(Fraction(sp.ox)) + abs(Fraction(sp.oy))) + Fraction(1, 2**48) * amp
             C.oracle(all(abs(u - v) <= s for u, v in zip(a, b)) and tuple(g2[k].shape) == tuple(gs[k].shape),
                      "from-sample-roundtrip", dict(case, k=list(k)),
                      f"grid rebuilt from tile {j}: tile {k} = {tuple(map(float, a))}, original {tuple(map(float, b))}",
